@@ -1,14 +1,15 @@
 (** C16 — obligations over the facts regenerated from /repo (Gen/C16Facts.v). *)
 From Coq Require Import String List Bool Arith.
 Import ListNotations.
-Require Import Nib.C16.Model Nib.C16.Sites.
+Require Import Nib.C16.Model Nib.C16.Spelled Nib.C16.Sites.
 Require Import Nib.Gen.C16Facts.
 
 Definition current_facts : facts := {|
   f_sites := gate_sites;
   f_handlers := handlers;
   f_gate_functions := gate_functions;
-  f_wasm_routes := wasm_routes |}.
+  f_wasm_routes := wasm_routes;
+  f_writes := sudoers_writes |}.
 
 (** The current tree gates exactly the operations the model gates, each gate call precedes every
     state write of its function, and the gate functions have the modelled normal form.  A new gated
@@ -28,6 +29,16 @@ Theorem C16_wasm_dispatch_guards_every_branch :
   forall g ow, c_wguard (mk_cfg g ow) = wguard_of current_facts.
 Proof. split; [vm_compute; reflexivity | intros; vm_compute; reflexivity]. Qed.
 Print Assumptions C16_wasm_dispatch_guards_every_branch.
+
+(** x/sudo/keeper stores and compares IDENTITIES: ChangeRoot writes the String() of the parsed new root,
+    RemoveContracts removes the String() of the parsed entry, AddContracts adds it, and the root test of
+    EditSudoers compares parsed addresses — i.e. the string store of the tree is [canon_rawcfg], the one
+    proved to simulate the identity-keyed model (C16_canonical_store_simulates_identity_model); any other
+    value of the switches is refuted by C16_raw_string_store_refuted / _each_switch_needed. *)
+Theorem C16_sudoers_store_is_keyed_by_identity :
+  spelling_safe current_facts = true /\ rawcfg_of current_facts = canon_rawcfg.
+Proof. split; vm_compute; reflexivity. Qed.
+Print Assumptions C16_sudoers_store_is_keyed_by_identity.
 
 (** every gated operation of the model is carried by a handler found gated in the tree *)
 Theorem C16_every_model_op_is_gated_in_tree :
